@@ -8,6 +8,24 @@
 # rule: how cases are generated and what makes one non-trivial / distinct (copied into evidence)
 
 PROPS = {
+    "C17": {
+        "level": "exploration",
+        "rule": "The mutation list and every input type are DISCOVERED by introspection of the served schema on each run; rapid "
+                "generates for each mutation an input object from its introspected fields (bug prefix: full / shortest unique / "
+                "ambiguous / unknown; combined comment id prefix: full / one character / unknown; repoRef: default / unknown; "
+                "titles and messages with padding, CRLF, control characters, blank; [Hash!]: stored blob / empty / malformed; "
+                "label lists) and sends it through the real GraphQL handler once without a user (read-only web UI) or with "
+                "auth.Middleware(user); the upload endpoint gets valid PNG/GIF, text and empty bodies in both modes. The git config "
+                "has NO user identity, so only the request context can authenticate. Oracle: without a user every mutation answers "
+                "errors + data null, upload answers 403, and refs, the object database file list and everything the cache serves are "
+                "unchanged, while a read query still works; with a user a failed request changes nothing, a valid request must not "
+                "fail, and on success exactly one bug gained exactly the operations the mutation denotes (kinds, payload after the "
+                "documented clean-up, files, status) authored by that user, and the returned bug reflects them. "
+                "Non-trivial: a mutation with a valid target on an existing bug (or an upload). Distinct: mutation x auth mode x argument classes.",
+        "assumptions": ["mutations added later are covered by the unauthenticated oracle automatically; their authenticated semantics only generically (author, one bug changed)",
+                        "whether a label change is effective depends on the state and is not required to succeed"],
+        "tests": [{"name": "TestC17API", "quick": 500, "shards_quick": 2, "thorough": 2500, "shards": 12}],
+    },
     "C19": {
         "level": "fault_enumeration",
         "rule": "rapid generates schedules (4..17 steps) of real git-bug processes on one repository: a long-lived holder (webui "
@@ -286,6 +304,13 @@ PROPS = {
 
 # Text for MANIFEST.json, per claimed property.
 MANIFEST_TEXT = {
+    "C17": {
+        "technique": "property-based testing (rapid) of the served GraphQL API: schema introspection drives the request generator; frame-condition and recorded-change oracles read git independently",
+        "level_text": "Requests are generated from the introspected schema and sent with and without an authenticated user; the repository "
+                      "is fingerprinted before and after (refs, object files, cache view) and new operations are parsed from git by the independent reader.",
+        "design_ref": "DESIGN.md §4 C17",
+        "level_note": "Trusted: net/http/httptest transport in place of a socket; the reference clean-up functions as a reading of util/text's documented behaviour.",
+    },
     "C19": {
         "technique": "stateful property-based testing (rapid) of schedules of real processes with injected kills and stale lock files, judged by a reference lock automaton",
         "level_text": "Generated schedules of real git-bug processes (holder, succeeding and failing commands, signals at generated moments, "
